@@ -26,6 +26,9 @@ const (
 	ContextTagName
 	ContextTagValue
 	ContextDate
+	// ContextNone: the cursor stands inside something that is not a name
+	// (a directive keyword, a transaction code); nothing is offered
+	ContextNone
 )
 
 const (
@@ -51,10 +54,20 @@ func (s *Server) Completion(ctx context.Context, params *protocol.CompletionPara
 
 	settings := s.getSettings()
 	completionCtx := determineCompletionContext(doc, params.Position, params.Context)
+	if completionCtx == ContextNone {
+		return &protocol.CompletionList{IsIncomplete: true, Items: []protocol.CompletionItem{}}, nil
+	}
+	// "@" or "=" just typed: whatever stands around the cursor is no fragment of
+	// the commodity to come
+	triggered := completionCtx == ContextCommodity && params.Context != nil &&
+		(params.Context.TriggerCharacter == "@" || params.Context.TriggerCharacter == "=")
 	counts := getCountsForContext(completionCtx, result)
 	items := s.generateCompletionItems(completionCtx, result, doc, params.Position, counts, settings.Completion)
 
 	editRange := calculateTextEditRange(doc, params.Position, completionCtx)
+	if triggered {
+		editRange = &protocol.Range{Start: params.Position, End: params.Position}
+	}
 	if editRange != nil {
 		for i := range items {
 			text := items[i].Label
@@ -69,6 +82,9 @@ func (s *Server) Completion(ctx context.Context, params *protocol.CompletionPara
 	}
 
 	query := extractQueryText(doc, params.Position, completionCtx)
+	if triggered {
+		query = ""
+	}
 	scored := filterAndScoreFuzzyMatch(items, query, settings.Completion.FuzzyMatching)
 	items = rankCompletionItemsByScore(scored, counts, query)
 
@@ -149,23 +165,25 @@ func determineCompletionContext(content string, pos protocol.Position, ctx *prot
 		return ContextDate
 	}
 
-	if strings.HasPrefix(line, directiveAccount) {
-		return ContextAccount
-	}
-	if strings.HasPrefix(line, directiveCommodity) {
-		return ContextCommodity
-	}
-	if strings.HasPrefix(line, directiveApplyAccount) {
-		return ContextAccount
-	}
-	if strings.HasPrefix(line, "D ") {
-		// D <amount>: a number and a commodity, on either side
-		return ContextCommodity
+	cursor := min(lsputil.UTF16OffsetToByteOffset(line, int(pos.Character)), len(line))
+	for _, d := range []struct {
+		keyword string
+		ctx     CompletionContextType
+	}{{directiveAccount, ContextAccount}, {directiveCommodity, ContextCommodity}, {directiveApplyAccount, ContextAccount}, {"D ", ContextCommodity}} {
+		if strings.HasPrefix(line, d.keyword) {
+			if cursor < len(d.keyword) {
+				return ContextNone // inside the keyword
+			}
+			return d.ctx
+		}
 	}
 	if strings.HasPrefix(line, "P ") {
 		// P <date> <commodity> <amount>: after the date everything names a commodity or is a number
-		byteCol := min(lsputil.UTF16OffsetToByteOffset(line, int(pos.Character)), len(line))
-		typed := strings.TrimLeft(line[min(2, byteCol):byteCol], " \t")
+		byteCol := cursor
+		if byteCol < 2 {
+			return ContextNone
+		}
+		typed := strings.TrimLeft(line[2:byteCol], " \t")
 		if strings.ContainsAny(typed, " \t") {
 			return ContextCommodity
 		}
@@ -179,6 +197,10 @@ func determineCompletionContext(content string, pos protocol.Position, ctx *prot
 	}
 
 	if len(line) > 0 && line[0] >= '0' && line[0] <= '9' {
+		before := line[:cursor]
+		if i := payeeFragmentStart(before); i < len(before) && before[i] == '(' && !strings.Contains(before[i:], ")") {
+			return ContextNone // inside the transaction code
+		}
 		return ContextPayee
 	}
 
@@ -803,13 +825,8 @@ func commodityFragmentStart(beforeCursor string) int {
 	return i
 }
 
-// commodityStartAt is commodityFragmentStart for a cursor inside a line. In
-// front of a number nothing of a name is being typed: what would be offered
-// there is put in front of the number.
+// commodityStartAt is commodityFragmentStart for a cursor inside a line.
 func commodityStartAt(line string, byteCol int) int {
-	if byteCol < len(line) && line[byteCol] >= '0' && line[byteCol] <= '9' {
-		return byteCol
-	}
 	return commodityFragmentStart(line[:byteCol])
 }
 
